@@ -82,5 +82,11 @@ CLAIMED["C04"] = dict(
     note="Trusted: the documented vocabulary frozen in DOC_DANGEROUS/DOC_BAD_CALLS (from the property text); stdlib_list's data; class-definition order = Analysis.ALL order (analysis.py before ml.py).",
 )
 
+CLAIMED["C15"] = dict(
+    technique="type-lattice evaluation of the validator priority search vs pickletools' decoded kinds; constant folding of admitted integer ranges vs struct formats; writer/reader shape agreement of every encoder with the pickletools argument descriptor",
+    level="Decides two agreement rules: for every input kind every constant class that can win ConstantOpcode.new decodes (per pickletools) to that kind, within a range its format can hold; and every registered opcode class writes the shape its descriptor reads back, or refuses. Genuine findings on this tree are recorded (bool is captured by the integer classes; five legacy encoders disagree with their descriptors). Per-value escaping and boundary correctness (raw_unicode_escape on non-ASCII, float round trip, nested containers beyond their leaves) is value-level and not decided.",
+    note="Trusted: pickletools descriptors and stack_after kinds; the encoder pattern table in sa/props/c15.py (an unrecognised encoder ends ANALYSIS-ERROR).",
+)
+
 _NOT_YET = "checker not built yet in this session (planned per DESIGN.md section 3); nothing is claimed until it exists"
 NOT_APPLICABLE = {p: _NOT_YET for p in [f"C{i:02d}" for i in range(1, 20)]}
